@@ -102,6 +102,78 @@ theorem C17_computeOneLevel_reorder (ρ : List (Nat × Rat) → List (Nat × Rat
   -- the two `match`es are different auxiliary matchers with the same unfolding
   rfl
 
+/-! ### the whole seeded run: level loop and `louvain_partitions` -/
+
+/-- `levelLoop` over `computeOneLevelR` -/
+def levelLoopR (ρ : List (Nat × Rat) → List (Nat × Rat)) (weighted : Bool) (res threshold m : Rat) (perms : List (List Nat))
+    (sweepFuel : Nat) :
+    Nat → Level → List (List Nat) → List (List Nat) → Bool → Rat → List (List (List Nat)) → Outcome (Option (List (List (List Nat))))
+  | 0, _, _, _, _, _, _ => .ok none
+  | fuel + 1, lv, partition, inner, improvement, modularity, acc =>
+    if !improvement then .ok (some acc)
+    else do
+      let acc := acc ++ [partition]
+      match ← (lv.g.modularity inner weighted res).unwrap "louvain_partitions: modularity().unwrap()" with
+      | none => .ok none
+      | some newMod =>
+        if newMod - modularity ≤ threshold then .ok (some acc)
+        else do
+          let lv' ← generateGraph lv inner
+          let perm := perms[lv'.g.numNodes]?.getD []
+          match ← computeOneLevelR ρ lv' m res partition perm sweepFuel with
+          | none => .ok none
+          | some (p, i, imp) => levelLoopR ρ weighted res threshold m perms sweepFuel fuel lv' p i imp newMod acc
+
+/-- `louvainPartitions` with every candidate map handed over in the order `ρ` puts it -/
+def louvainPartitionsR (ρ : List (Nat × Rat) → List (Nat × Rat)) (s : Store) (weighted : Bool) (res threshold : Rat)
+    (perms : List (List Nat)) : Outcome (Option (List (List (List Nat)))) := do
+  let lv ← convertGraph s weighted
+  let n := lv.g.numNodes
+  let partition : List (List Nat) := (List.range n).map fun i => [i]
+  match ← (lv.g.modularity partition weighted res).unwrap "louvain_partitions: modularity().unwrap()" with
+  | none => .ok none
+  | some mod0 =>
+    let m : Rat := if weighted then ratW lv.g.sizeWeighted else (lv.g.sizeUnweighted : Rat)
+    let sweepFuel := 4 * n * n + 16
+    match ← computeOneLevelR ρ lv m res partition (perms[n]?.getD []) sweepFuel with
+    | none => .ok none
+    | some (p, i, _) => levelLoopR ρ weighted res threshold m perms sweepFuel (n + 2) lv p i true mod0 []
+
+theorem C17_levelLoop_reorder (ρ : List (Nat × Rat) → List (Nat × Rat)) (hρ : ∀ l, (ρ l).Perm l)
+    (weighted : Bool) (res threshold m : Rat) (perms : List (List Nat)) (sweepFuel fuel : Nat) (lv : Level)
+    (partition inner : List (List Nat)) (improvement : Bool) (modularity : Rat) (acc : List (List (List Nat))) :
+    levelLoopR ρ weighted res threshold m perms sweepFuel fuel lv partition inner improvement modularity acc
+      = levelLoop weighted res threshold m perms sweepFuel fuel lv partition inner improvement modularity acc := by
+  have hc : computeOneLevelR ρ = computeOneLevel := by
+    funext lv m res p perm f; exact C17_computeOneLevel_reorder ρ hρ lv m res p perm f
+  induction fuel generalizing lv partition inner improvement modularity acc with
+  | zero => rfl
+  | succ fuel ih =>
+    unfold levelLoopR levelLoop
+    simp only [hc, ih]
+    rfl
+
+/-- **the seeded run as a whole — every level of `louvain_partitions` — is the same for every order in which the
+    candidate maps yield their entries**: with the seed's shuffles `perms` fixed, the model's answer is a function of the
+    graph and the arguments alone -/
+theorem C17_louvainPartitions_reorder (ρ : List (Nat × Rat) → List (Nat × Rat)) (hρ : ∀ l, (ρ l).Perm l)
+    (s : Store) (weighted : Bool) (res threshold : Rat) (perms : List (List Nat)) :
+    louvainPartitionsR ρ s weighted res threshold perms = louvainPartitions s weighted res threshold perms := by
+  have hc : computeOneLevelR ρ = computeOneLevel := by
+    funext lv m res p perm f; exact C17_computeOneLevel_reorder ρ hρ lv m res p perm f
+  have hl : levelLoopR ρ = levelLoop := by
+    funext w r t m ps sf f lv p i imp md acc; exact C17_levelLoop_reorder ρ hρ w r t m ps sf f lv p i imp md acc
+  unfold louvainPartitionsR louvainPartitions
+  simp only [hc, hl]
+  rfl
+
+/-- two calls (two processes, two hash seeds) that hand their candidate maps over in different orders agree -/
+theorem C17_louvainPartitions_two_orders (ρ₁ ρ₂ : List (Nat × Rat) → List (Nat × Rat))
+    (h₁ : ∀ l, (ρ₁ l).Perm l) (h₂ : ∀ l, (ρ₂ l).Perm l)
+    (s : Store) (weighted : Bool) (res threshold : Rat) (perms : List (List Nat)) :
+    louvainPartitionsR ρ₁ s weighted res threshold perms = louvainPartitionsR ρ₂ s weighted res threshold perms := by
+  rw [C17_louvainPartitions_reorder ρ₁ h₁, C17_louvainPartitions_reorder ρ₂ h₂]
+
 /-- non-vacuity: reversing the candidate map is such a reordering -/
 example : ∀ l : List (Nat × Rat), (List.reverse l).Perm l := fun l => List.reverse_perm l
 
